@@ -4,22 +4,34 @@ import CnbVerif.Spec.Streaming
 /-!
 Driver glue for C19.
 
-* `A  <marker hex>  <prefix hex, - = empty>  <chunks>  [<writers>]`: chunks separated by `,`, `_` = an empty chunk, `-` = no write at all.
-  Observation `drop=…;unwrap=…;line=…;teea=…;teeb=…;ret=1` (hex): what the inner writer holds after `mapped(.., marker,
-  add_prefix(prefix))` was fed the chunks and dropped / unwrapped, the same for `line_mapped`, the two tee targets,
-  and whether every `write` call returned the chunk length.
+* `A  <marker hex>  <prefix hex, - = empty>  <ops>  [<writers>]`: ops separated by `,`: a hex chunk = `write` of it, `_` = a
+  `write` of an empty chunk, `F` = `flush()`; `-` = no call at all.
+  Observation `drop=…;unwrap=…;line=…;teea=…;teeb=…;tm=…/…;mt=…/…;mm=…;fl=n.n.n.n.n.n.n.n.n.n;ret=1` (hex): what the inner
+  writer holds after `mapped(.., marker, add_prefix(prefix))` was given the ops and dropped / unwrapped, the same for
+  `line_mapped`, the two tee targets; `tm` = the two targets of `tee(a, mapped(b, marker, prefix))`, `mt` = the two targets
+  under `mapped(tee(a, b), marker, prefix)`, `mm` = the target under `mapped(line_mapped(w, add_prefix("| ")), marker, prefix)`;
+  `fl` = the number of `flush()` calls each of these ten targets received (in this order); `ret` = whether every `write` call
+  returned the chunk length and every `flush` returned `Ok`.
   `<writers>` = `-` (plain `Vec`s) or `<first tee target>/<second tee target>/<inner writer of the mapped writers>`, each
   `f` (accepts everything) | `s<k>` (at most k bytes per call) | `a<k>` (odd calls everything, even calls at most k), optionally
-  followed by `i<n>` (every n-th call fails with `Interrupted`, n >= 2). The chunks are fed with a `write_all` loop; `ret` says
-  whether every `write` call took its whole buffer (compared with the model only, the property does not constrain it).
-* `B  <seq|par>  <- | stdout writer/stderr writer>  <items>`: items (separated by `;`) `o|e.<len>.<seed>.<delay ms>`; byte `i` of an item is `(seed + i) % 251`.
+  followed by `i<n>` (every n-th call fails with `Interrupted`, n >= 2). The chunks are fed with a `write_all` loop. `fl` and
+  `ret` are compared with the model only (the property does not constrain them).
+* `B  <seq|par>  <- | stdout writer/stderr writer>  <items>`: items (separated by `;`) `o|e.<len>.<seed>.<delay ms>[.t]`; byte `i` of an
+  item is `(seed + i) % 251`, with `.t` (text, never a newline) `97 + (seed + i) % 26`.
   Observation `o=<len>:<fnv>/<len>:<fnv>;e=…;status=0` (returned `Output` buffer / supplied writer), or `timeout`.
+* `M  <out|spawn>  <seq|par>  <stdout target>/<stderr target>  <items>`: the child's streams go, through
+  `output_and_write_streams` (`out`) or `spawn_and_write_streams` + `wait` (`spawn`), into targets `v` (a `Vec`),
+  `l` (`line_mapped(Vec, add_prefix("> "))`), `m` (`mapped(Vec, b'a', add_prefix("<"))`), `t` (`tee(line_mapped(Vec, "> "), Vec)`).
+  Observation `o=<Output.stdout digest, - for spawn>/<target digest>[+<second tee target digest>];e=…;status=0`, or `timeout`.
 -/
 namespace CnbVerif.DriverC19
 open CnbVerif MW Pipes Spec.Streaming
 
 def parseChunk (s : String) : Option Bytes := if s = "_" then some [] else hexDecode s
 def parseChunks (s : String) : Option (List Bytes) := allSome ((splitList s ",").map parseChunk)
+/-- `F` = flush (`none`), anything else a chunk -/
+def parseOp (s : String) : Option (Option Bytes) := if s = "F" then some none else (parseChunk s).map some
+def parseOps (s : String) : Option (List (Option Bytes)) := allSome ((splitList s ",").map parseOp)
 
 def fnv (b : Bytes) : Nat :=
   (b.foldl (fun (h : UInt64) x => (h ^^^ UInt64.ofNat x) * 0x100000001b3) (0xcbf29ce484222325 : UInt64)).toNat
@@ -27,13 +39,17 @@ def fnv (b : Bytes) : Nat :=
 def digest (b : Bytes) : String := toString b.length ++ ":" ++ toString (fnv b)
 
 def itemBytes (len seed : Nat) : Bytes := (List.range len).map (fun i => (seed + i) % 251)
+/-- text items: lower-case letters only, never a newline -/
+def itemText (len seed : Nat) : Bytes := (List.range len).map (fun i => 97 + (seed + i) % 26)
 
 def parseItem (s : String) : Option (Bool × Bytes) :=
-  match s.splitOn "." with
-  | [st, len, seed, delay] =>
+  let mk (text : Bool) (st len seed delay : String) : Option (Bool × Bytes) :=
     match (if st = "o" then some false else if st = "e" then some true else none), len.toNat?, seed.toNat?, delay.toNat? with
-    | some st, some len, some seed, some _ => some (st, itemBytes len seed)
+    | some st, some len, some seed, some _ => some (st, if text then itemText len seed else itemBytes len seed)
     | _, _, _, _ => none
+  match s.splitOn "." with
+  | [st, len, seed, delay] => mk false st len seed delay
+  | [st, len, seed, delay, "t"] => mk true st len seed delay
   | _ => none
 
 def parseScript (s : String) : Option Script := allSome ((splitList s ";").map parseItem)
@@ -58,6 +74,8 @@ def parseWSpec (s : String) : Option WSpec :=
 
 /-- the behaviour script of a scripted writer for its first `n` calls (`0` = Interrupted, else the accept limit) -/
 def WSpec.script (w : WSpec) (n : Nat) : List Nat :=
+  -- a plain target: the empty script (an exhausted script accepts everything)
+  if w.mode = 'f' ∧ w.intr = 0 then [] else
   (List.range n).map (fun j =>
     let c := j + 1
     if w.intr > 0 ∧ c % w.intr = 0 then 0
@@ -71,9 +89,11 @@ def parseWriters (n : Nat) (s : String) : Option (List WSpec) :=
     | some l => if l.length = n then some l else none
     | none => none
 
-def renderA (d u l a b : Bytes) : String :=
+def renderA (d u l a b tma tmb mta mtb mm : Bytes) (fl : List Nat) : String :=
   "drop=" ++ hexEncode d ++ ";unwrap=" ++ hexEncode u ++ ";line=" ++ hexEncode l ++
-  ";teea=" ++ hexEncode a ++ ";teeb=" ++ hexEncode b ++ ";ret=1"
+  ";teea=" ++ hexEncode a ++ ";teeb=" ++ hexEncode b ++
+  ";tm=" ++ hexEncode tma ++ "/" ++ hexEncode tmb ++ ";mt=" ++ hexEncode mta ++ "/" ++ hexEncode mtb ++ ";mm=" ++ hexEncode mm ++
+  ";fl=" ++ joinWith "." (fl.map toString) ++ ";ret=1"
 
 def renderB (oa ob ea eb : Bytes) : String :=
   "o=" ++ digest oa ++ "/" ++ digest ob ++ ";e=" ++ digest ea ++ "/" ++ digest eb ++ ";status=0"
@@ -93,26 +113,49 @@ def firstSome : List (Option String) → Option String
 
 def scriptTotal (sc : Script) : Nat := (sc.map (·.2.length)).foldl (· + ·) 0
 
-def handleA (m p chunks writers obs : String) : String × String :=
-  match hexDecode m, (if p = "-" then some [] else hexDecode p), parseChunks chunks, parseWriters 3 writers with
-  | some [m], some p, some chunks, some [wa, wb, wi] =>
+/-- the prefix of the inner `line_mapped` of the `mapped`-of-`mapped` composition: `"| "` -/
+def innerPrefix : Bytes := [124, 32]
+
+def checkPair (what : String) (got : Option String) (wantA wantB : Bytes) : Option String :=
+  match got with
+  | none => some ("unparsable-observation " ++ what)
+  | some g => if g = hexEncode wantA ++ "/" ++ hexEncode wantB then none
+              else some (what ++ " expected " ++ hexEncode wantA ++ "/" ++ hexEncode wantB ++ " got " ++ g)
+
+def handleA (m p ops writers obs : String) : String × String :=
+  match hexDecode m, (if p = "-" then some [] else hexDecode p), parseOps ops, parseWriters 3 writers with
+  | some [m], some p, some ops, some [wa, wb, wi] =>
     let f := addPrefix p
-    let input := chunks.flatten
-    -- the models over scripted (short-writing) targets; by C19.mapped_output_short_writes / tee_full_input_short_writes
-    -- the contents do not depend on the scripts
-    let out := runS m f (wi.script (2 * (run m f chunks).length + 4)) chunks
-    let line := runS 10 f (wi.script (2 * (run 10 f chunks).length + 4)) chunks
-    let t := teeRunS (wa.script (2 * input.length + 4)) (wb.script (2 * input.length + 4)) chunks
-    let model := renderA out out line t.a t.b
+    let g := addPrefix innerPrefix
+    let input := writtenBytes ops
+    -- the model: every wrapper is the calls it makes on what it wraps (Model/MappedWrite.lean), the targets at the bottom are
+    -- scripted (short-writing) sinks; by C19.mapped_output_independent_of_flushes / tee_full_input_with_flushes /
+    -- compositions_independent_of_flushes their contents depend neither on the scripts nor on the flushes
+    let sink (w : WSpec) (calls : List (Option Bytes)) : Bytes := sinkRunS (w.script (2 * (sinkContent calls).length + 4)) [] calls
+    let cm := mappedCalls m f ops
+    let cl := mappedCalls 10 f ops
+    let ct := teeCalls ops
+    let ctm := mappedCalls m f (teeCalls ops).2
+    let cmt := teeCalls (mappedCalls m f ops)
+    let cmm := mappedCalls 10 g (mappedCalls m f ops)
+    let dm := sink wi cm
+    let model := renderA dm dm (sink wi cl) (sink wa ct.1) (sink wb ct.2)
+      (sink wa (teeCalls ops).1) (sink wi ctm) (sink wa cmt.1) (sink wb cmt.2) (sink wi cmm)
+      ([cm, cm, cl, ct.1, ct.2, (teeCalls ops).1, ctm, cmt.1, cmt.2, cmm].map sinkFlushes)
+    let mo := mappedOutput m f input
     let verdict :=
       match obs.splitOn ";" with
-      | [d, u, l, a, b, r] =>
+      | [d, u, l, a, b, tm, mt, mm, fl, r] =>
         (match firstSome [
-            checkPart "mapped-drop" (kv "drop" d) (mappedOutput m f input),
-            checkPart "mapped-unwrap" (kv "unwrap" u) (mappedOutput m f input),
+            checkPart "mapped-drop" (kv "drop" d) mo,
+            checkPart "mapped-unwrap" (kv "unwrap" u) mo,
             checkPart "line_mapped-drop" (kv "line" l) (mappedOutput 10 f input),
             checkPart "tee-first-target" (kv "teea" a) (teeOutput input),
             checkPart "tee-second-target" (kv "teeb" b) (teeOutput input),
+            checkPair "tee-into-mapped" (kv "tm" tm) (teeOutput input) mo,
+            checkPair "mapped-into-tee" (kv "mt" mt) (teeOutput mo) (teeOutput mo),
+            checkPart "mapped-of-line_mapped" (kv "mm" mm) (mappedOutput 10 g mo),
+            (if (kv "fl" fl).isSome then none else some "unparsable-observation fl"),
             (if r = "ret=1" ∨ r = "ret=0" then none else some "unparsable-observation ret")] with
         | none => "ok"
         | some why => "fail:" ++ why)
@@ -120,10 +163,67 @@ def handleA (m p chunks writers obs : String) : String × String :=
     (model, verdict)
   | _, _, _, _ => ("bad-op", "bad-op")
 
+/-- the targets of the `M` cases -/
+def parseTargets (s : String) : Option (Char × Char) :=
+  match s.toList with
+  | [a, '/', b] => if "vlmt".toList.contains a ∧ "vlmt".toList.contains b then some (a, b) else none
+  | _ => none
+
+def targetPrefix : Bytes := [62, 32]   -- "> "
+def targetPrefixA : Bytes := [60]      -- "<"
+
+/-- what the property requires the bottom `Vec`(s) of a target to hold, given the bytes the child wrote to the stream -/
+def targetSpec (t : Char) (bytes : Bytes) : String :=
+  if t = 'v' then digest (teeOutput bytes)
+  else if t = 'l' then digest (mappedOutput 10 (addPrefix targetPrefix) bytes)
+  else if t = 'm' then digest (mappedOutput 97 (addPrefix targetPrefixA) bytes)
+  else digest (mappedOutput 10 (addPrefix targetPrefix) bytes) ++ "+" ++ digest (teeOutput bytes)
+
+/-- the model of a target that received `calls` (the copier's calls on the supplied writer) -/
+def targetModel (t : Char) (calls : List (Option Bytes)) : String :=
+  if t = 'v' then digest (sinkContent calls)
+  else if t = 'l' then digest (sinkContent (mappedCalls 10 (addPrefix targetPrefix) calls))
+  else if t = 'm' then digest (sinkContent (mappedCalls 97 (addPrefix targetPrefixA) calls))
+  else digest (sinkContent (mappedCalls 10 (addPrefix targetPrefix) (teeCalls calls).1)) ++ "+" ++ digest (sinkContent (teeCalls calls).2)
+
+def handleM (entry mode targets items obs : String) : String × String :=
+  if (entry ≠ "out" ∧ entry ≠ "spawn") ∨ (mode ≠ "seq" ∧ mode ≠ "par") then ("bad-op", "bad-op") else
+  match parseTargets targets, parseScript items with
+  | some (to, te), some script =>
+    let so := streamBytes false script
+    let se := streamBytes true script
+    let outPart (b : Bytes) : String := if entry = "out" then digest b else "-"
+    let render (o e : String) (oa ea : Bytes) : String := "o=" ++ outPart oa ++ "/" ++ o ++ ";e=" ++ outPart ea ++ "/" ++ e ++ ";status=0"
+    -- small scripts: the step model (pipe capacity 3, first-enabled scheduler); its copier hands the supplied writer one byte
+    -- per `write`. Large: the proved final state and, for the targets, the proved closed form of the writer model
+    -- (C19.delivery, C19.mapped_output_independent_of_flushes: every chunking gives this).
+    let model :=
+      if scriptTotal script ≤ 64 then
+        let fin := runFirst codeMode 3 (measure (init script)) (init script)
+        if final fin then
+          render (targetModel to (fin.o.tee.b.map (fun b => some [b]))) (targetModel te (fin.e.tee.b.map (fun b => some [b]))) fin.o.tee.a fin.e.tee.a
+        else "deadlock"
+      else
+        let fin := finalOf script
+        render (targetSpec to fin.o.tee.b) (targetSpec te fin.e.tee.b) fin.o.tee.a fin.e.tee.a
+    let want := render (targetSpec to so) (targetSpec te se) so se
+    let verdict :=
+      if obs = "timeout" then "fail:timeout (no return within the watchdog limit, twice)"
+      else if obs = want then "ok"
+      else match obs.splitOn ";", want.splitOn ";" with
+        | [o, e, st], [wo, we, _] =>
+          if o ≠ wo then "fail:stdout (Output/target " ++ String.singleton to ++ ") expected " ++ wo ++ " got " ++ o
+          else if e ≠ we then "fail:stderr (Output/target " ++ String.singleton te ++ ") expected " ++ we ++ " got " ++ e
+          else "fail:" ++ st
+        | _, _ => "fail:" ++ obs
+    (model, verdict)
+  | _, _ => ("bad-op", "bad-op")
+
 def handle (fields : List String) (obs : String) : String × String :=
   match fields with
   | ["A", m, p, chunks] => handleA m p chunks "-" obs
   | ["A", m, p, chunks, writers] => handleA m p chunks writers obs
+  | ["M", entry, mode, targets, items] => handleM entry mode targets items obs
   | ["B", mode, writers, items] =>
     if (mode ≠ "seq" ∧ mode ≠ "par") ∨ (parseWriters 2 writers).isNone then ("bad-op", "bad-op") else
     match parseScript items with
